@@ -78,8 +78,8 @@ def addSegment (m : Manifest) (info : SegInfo) : Manifest :=
     segments := insertSeg info m.segments
     version := m.version + 1 }
 
-/-- `Manifest::compact_segments`.  `bump = false` is the code that exists; `bump = true` is the
-    suggested repair `next_segment_id = max(next_segment_id, last_segment_id + 1)`. -/
+/-- `Manifest::compact_segments`.  `bump = false` is the pinned commit; `bump = true` is the tree after
+    the `fix:` commit: `next_segment_id = max(next_segment_id, last_segment_id + 1)`. -/
 def compactSegmentsWith (bump : Bool) (m : Manifest) (c : ChkInfo) : Manifest :=
   { m with
     segments := m.segments.filter (fun s => s.id > c.last)
@@ -87,8 +87,8 @@ def compactSegmentsWith (bump : Bool) (m : Manifest) (c : ChkInfo) : Manifest :=
     version := m.version + 1
     next := if bump then Max.max m.next (c.last + 1) else m.next }
 
-/-- the current tree -/
-def compactSegments (m : Manifest) (c : ChkInfo) : Manifest := compactSegmentsWith false m c
+/-- the current tree (since the `fix:` commit recorded in known_findings.json: `bump = true`) -/
+def compactSegments (m : Manifest) (c : ChkInfo) : Manifest := compactSegmentsWith true m c
 
 /-- `Manifest::allocate_segment_id` -/
 def allocate (m : Manifest) : Nat × Manifest := (m.next, { m with next := m.next + 1 })
@@ -237,9 +237,9 @@ def maxTime (ds : List Delta) : Nat := ds.foldl (fun a x => Max.max a x.2.ts.tim
 /-- `StreamingPersistence::push` (the backpressure threshold is not reached) -/
 def push (p : Pers) (d : Delta) : Pers := { p with buffer := p.buffer ++ [d] }
 
-/-- `StreamingPersistence::flush`.  `restore = false` is the code that exists (the buffer is taken
-    before the first fallible step and dropped by `?`); `restore = true` is the suggested repair
-    (put the taken deltas back on every error path).  `sz` = serialised size of the segment. -/
+/-- `StreamingPersistence::flush`.  `restore = false` is the pinned commit (the buffer is taken
+    before the first fallible step and dropped by `?`); `restore = true` is the tree after the
+    `fix:` commit (the taken deltas are put back on every error path).  `sz` = serialised size of the segment. -/
 def flushWith (restore : Bool) (F : Oracle) (sz : Nat) (w : World) (p : Pers) :
     World × Pers × FlushOut :=
   match p.buffer with
@@ -261,10 +261,6 @@ def flushWith (restore : Bool) (F : Oracle) (sz : Nat) (w : World) (p : Pers) :
         | (w3, false) => (w3, pFail, .error)
         | (w3, true) => (w3, pOk, .flushed id deltas.length)
 
-/-- the current tree -/
-def flush (F : Oracle) (sz : Nat) (w : World) (p : Pers) : World × Pers × FlushOut :=
-  flushWith false F sz w p
-
 /-! ## the state a node ends up with -/
 
 /-- `apply_remote_delta`: merge into the existing value of the key, or insert -/
@@ -285,7 +281,7 @@ structure CompactCfg where
   cutoff : Nat      -- `now_millis().saturating_sub(tombstone_ttl)`
   deriving DecidableEq, Repr, Inhabited
 
-/-- the two repairs under discussion -/
+/-- the two repairs (both landed as `fix:` commits; `pinnedFlags` is the pinned commit) -/
 structure CompactFlags where
   mergeInsteadOfLatest : Bool   -- merge the deltas of a key instead of keeping the latest by time
   missingOnlyNotFound : Bool    -- only `ErrorKind::NotFound` marks a segment as missing
@@ -306,7 +302,7 @@ def selectSegments (cfg : CompactCfg) (m : Manifest) : List SegInfo :=
 
 /-- one delta into `key_to_delta` -/
 def keepStep (mergeFlag : Bool) (acc : NMap RV) (d : Delta) : NMap RV :=
-  if mergeFlag then applyDelta acc d     -- repaired: `existing.value = existing.value.merge(&delta.value)`
+  if mergeFlag then applyDelta acc d     -- current: `existing.value = existing.value.merge(&delta.value)`
   else
     match NMap.get acc d.1 with
     | none => NMap.insert d.1 d.2 acc
@@ -463,10 +459,6 @@ def compactInterleaved (restore : Bool) (cfl : CompactFlags) (F : Oracle) (cfg :
       let r := compactFinish F cfg sz rf.1 m acc
       (r.1, r.2, rf.2.2)
 
-/-- the current tree -/
-def compact (F : Oracle) (cfg : CompactCfg) (sz : Nat) (w : World) : World × CompactOut :=
-  compactWith pinnedFlags F cfg sz w
-
 /-! ## RecoveryManager -/
 
 inductive RecErr where
@@ -523,8 +515,8 @@ def recover (st : Store) (rid : Nat) : Except RecErr Recovered :=
       | .ok ds => .ok { manifest := m, chk := chk, deltas := ds }
 
 /-- `recover_with_wal`; `wal` = `recover_all_entries()` as (entry timestamp, delta).
-    `hwmFilter = true` is the code that exists (`recover_entries_after(high_water)`);
-    `hwmFilter = false` is the suggested repair (replay every WAL entry). -/
+    `hwmFilter = true` is the pinned commit (`recover_entries_after(high_water)`);
+    `hwmFilter = false` is the tree after the `fix:` commit (replay every WAL entry). -/
 def recoverWithWalWith (hwmFilter : Bool) (st : Store) (rid : Nat) (wal : List (Nat × Delta)) :
     Except RecErr Recovered :=
   match recover st rid with
@@ -534,9 +526,9 @@ def recoverWithWalWith (hwmFilter : Bool) (st : Store) (rid : Nat) (wal : List (
     let es := if hwmFilter then wal.filter (fun e => e.1 ≥ hwm) else wal
     .ok { r with deltas := r.deltas ++ es.map (·.2) }
 
-/-- the current tree -/
+/-- the current tree (since the `fix:` commit recorded in known_findings.json: no filter) -/
 def recoverWithWal (st : Store) (rid : Nat) (wal : List (Nat × Delta)) : Except RecErr Recovered :=
-  recoverWithWalWith true st rid wal
+  recoverWithWalWith false st rid wal
 
 /-- everything recovery hands to the node, in application order: checkpoint entries first
     (plain inserts, one per key), then the deltas -/
@@ -576,7 +568,16 @@ def pinned : Flags := { restoreBuffer := false, compact := pinnedFlags }
 
 /-- the flags that describe the CURRENT tree of /repo (flip a field here when the corresponding
     `fix:` commit lands; the driver and the "current tree" theorems follow) -/
-def current : Flags := pinned
+def current : Flags :=
+  { restoreBuffer := true, compact := { mergeInsteadOfLatest := true, missingOnlyNotFound := true } }
+
+/-- `StreamingPersistence::flush` of the current tree -/
+def flush (F : Oracle) (sz : Nat) (w : World) (p : Pers) : World × Pers × FlushOut :=
+  flushWith current.restoreBuffer F sz w p
+
+/-- `Compactor::compact` of the current tree -/
+def compact (F : Oracle) (cfg : CompactCfg) (sz : Nat) (w : World) : World × CompactOut :=
+  compactWith current.compact F cfg sz w
 
 /-- the manifest references only complete objects (and is itself complete) -/
 def refsComplete (st : Store) : Bool :=
@@ -612,6 +613,9 @@ def stepWith (fl : Flags) (F : Oracle) (s : Sys) : Op → Sys
   | .compact cfg sz => { s with w := (compactWith fl.compact F cfg sz s.w).1 }
 
 def runWith (fl : Flags) (F : Oracle) (s : Sys) (ops : List Op) : Sys := ops.foldl (stepWith fl F) s
+
+/-- a run of the current tree -/
+def run (F : Oracle) (s : Sys) (ops : List Op) : Sys := runWith current F s ops
 
 end Stream
 end RedisVerif
